@@ -93,6 +93,11 @@ func ParseName(name string) (NameInfo, error) {
 	if err != nil {
 		return empty, fmt.Errorf("timestamp parse error: %s", err)
 	}
+	if NameTimestamp(ts) != ni.TimestampString {
+		// time.Parse accepts a sign in the nanoseconds field ("-+00000005"),
+		// which would break the one-to-one mapping and the sort order of names.
+		return empty, fmt.Errorf("invalid timestamp format: %s in %s", ni.TimestampString, name)
+	}
 	ni.Timestamp = ts
 	return ni, nil
 }
